@@ -132,4 +132,16 @@ def removePrefixRef : Nat → Str → Str → Str
 /-- enough steps for any `p`: every step shortens it -/
 def removePrefixSpec (p q : Str) : Str := removePrefixRef (p.length + 1) p q
 
+
+/-! ### lines -/
+
+/-- the first line of a non-empty `s`: (its length, characters consumed).
+A line ends at `\n` or NUL; carriage returns directly in front of the
+terminator do not belong to it; a last line without terminator is taken as
+it is. -/
+def lineRef (s : Str) : Nat × Nat :=
+  let body := s.takeWhile (fun c => c != NL && c != NUL)
+  if body.length = s.length then (body.length, body.length)
+  else ((body.reverse.dropWhile (· == CR)).length, body.length + 1)
+
 end Igris.C19
